@@ -150,16 +150,20 @@ def run_entries(acc, block, nblocks, cfg):
         covered.add(name)
         covariant = opts.get("covariant", True)
         argnames = list(args)
-        for vlabel in (["as-given", "2-d", "0-d"] if kind == "ufunc" else ["as-given"]):
+        for vlabel in (["as-given", "2-d", "0-d", "alt"] if kind == "ufunc" else ["as-given", "alt"]):
             base = {}
             skip = False
             for an, (dim, vk) in args.items():
+                if vlabel == "alt":
+                    # the same call with another assignment of values to the roles
+                    base[an] = np.asarray(R.VALUES[R.ALT.get(vk, vk)], dtype=float)
+                    continue
                 variants = dict(shape_variants(kind, R.VALUES[vk]))
                 if vlabel not in variants:
                     skip = True
                     break
                 base[an] = variants[vlabel]
-            if skip:
+            if skip or (vlabel == "alt" and (opts.get("no_alt") or all(R.ALT.get(vk, vk) == vk for _, vk in args.values()))):
                 continue
             # reference on base-unit magnitudes
             def ref_call(values):
